@@ -75,6 +75,12 @@ InitOpenQos2 == /\ s = Run(InitState(Cfg0), PreQ)
 Apis_C27q == {ApiT("Unsubscribe", <<"a", "+">>, 0, ""), ApiT("Subscribe", <<"a", "+">>, 1, "h6"), ApiT("Subscribe", AB, 1, "h2")}
 Gw_C27q == {Gw("UNSUBACK", "pend"), GwAck("SUBACK", "pend", 0), Gw("PUBREL", "gw")}
 
+(* C27w: an inbound QoS 2 exchange that is half done across a state change: subscribed, asleep, wake-up, the
+   gateway delivers a QoS 2 PUBLISH (PUBREC sent), the client reconnects (Connect from awake) or sleeps again, the
+   PUBREL follows: delivery at PUBREL whatever happened in between; every schedule executed *)
+Apis_C27w == {SleepApi(10), Api("Connect")}
+Gw_C27w == {Gw("DISCONNECT", "none"), Gw("PINGRESP", "none"), Gw("CONNACK", "none"), GwPub(2, 0, 7, <<>>, "gw"), Gw("PUBREL", "gw")}
+
 ---- (* C17: publish / subscribe / register under loss, duplication, late and foreign acks *)
 Apis_C17 == {ApiT("Publish", AB, 1, ""), ApiT("Publish", AB, 2, ""), ApiT("Publish", AB, 0, ""),
              ApiT("Subscribe", AB, 1, "h1"), ApiT("Register", AC, 0, ""), ApiT("Unsubscribe", AB, 0, "")}
